@@ -223,6 +223,49 @@ theorem inv_clear_setDict {s : St} (h : Inv s) (c : CId) (n : Name) (p : PId) :
       rw [this]
       exact h.coh c' k0 h0
 
+theorem clearDesc_shape (s : St) (c : CId) :
+    (∀ c', mroOf (clearDesc s c) c' = mroOf s c') ∧ (∀ k, clsDict (clearDesc s c) k = clsDict s k) := by
+  constructor
+  · intro c'
+    unfold clearDesc mroOf
+    simp only [List.getElem?_map]
+    cases s.classes[c']? with
+    | none => rfl
+    | some k => simp only [Option.map_some]; split <;> rfl
+  · intro c'
+    unfold clearDesc clsDict
+    simp only [List.getElem?_map]
+    cases s.classes[c']? with
+    | none => rfl
+    | some k => simp only [Option.map_some]; split <;> rfl
+
+/-- clearing caches never hurts: an empty cache is refilled by the next read -/
+theorem inv_clearDesc {s : St} (h : Inv s) (c : CId) : Inv (clearDesc s c) := by
+  obtain ⟨e1, e2⟩ := clearDesc_shape s c
+  have hcp : ∀ c', computeParams (clearDesc s c) c' = computeParams s c' :=
+    fun c' => computeParams_congr (e1 c') (fun k _ => e2 k)
+  have entry : ∀ (c' : CId) (k' : Cls), (clearDesc s c).classes[c']? = some k' →
+      ∃ k0 : Cls, s.classes[c']? = some k0 ∧ k'.dict = k0.dict ∧ (k'.cache = [] ∨ k'.cache = k0.cache) := by
+    intro c' k' hk'
+    unfold clearDesc at hk'
+    simp only [List.getElem?_map] at hk'
+    cases h0 : s.classes[c']? with
+    | none => simp [h0] at hk'
+    | some k0 =>
+      simp only [h0, Option.map_some, Option.some.injEq] at hk'
+      refine ⟨k0, rfl, ?_⟩
+      subst hk'
+      by_cases hm : c ∈ k0.mro <;> simp [hm]
+  constructor
+  · intro c' k' hk'
+    obtain ⟨k0, h0, hd, _⟩ := entry c' k' hk'
+    rw [hd]; exact h.dicts c' k0 h0
+  · intro c' k' hk'
+    obtain ⟨k0, h0, _, hc⟩ := entry c' k' hk'
+    rcases hc with hc | hc
+    · exact Or.inl hc
+    · rw [hc, hcp]; exact h.coh c' k0 h0
+
 /-! ### Instances: every per-instance copy belongs to a name that is a Parameter of the class -/
 
 /-- per-instance Parameter copies exist only under names attribute lookup resolves on the class -/
